@@ -278,6 +278,8 @@ func genFK(t *rapid.T, s *Schema, ti int, n int) (FK, bool) {
 		OnUpdate: pick(t, "onupd", Actions), OnDelete: pick(t, "ondel", Actions)}
 	if rapid.Bool().Draw(t, "fknamed") {
 		fk.Name = fmt.Sprintf("fk_%s_%d", strings.ReplaceAll(tb.Name, " ", "_"), n)
+	} else {
+		fk.Short = rapid.Bool().Draw(t, "fkshort")
 	}
 	// SET NULL needs nullable child columns to be meaningful; keep it legal for data tests
 	for _, c := range cols {
